@@ -56,6 +56,15 @@ impl BigEndian {
     { unimplemented!() }
 }
 
+// ---- Rust allocation limit: no slice or Vec is longer than isize::MAX bytes (std documentation of
+//      slice::from_raw_parts / Vec::with_capacity); trusted, used where two lengths are added
+pub proof fn axiom_slice_len_limit(s: &[u8])
+    ensures s@.len() <= isize::MAX,
+{ admit(); }
+pub proof fn axiom_vec_len_limit(v: &Vec<u8>)
+    ensures v@.len() <= isize::MAX,
+{ admit(); }
+
 // ---- std functions without a vstd specification
 pub assume_specification<T> [bool::then_some] (b: bool, t: T) -> (r: Option<T>)
     ensures r == (if b { Some(t) } else { None::<T> });
@@ -97,8 +106,3 @@ impl From<core::array::TryFromSliceError> for StunError {
     #[verifier::external_body]
     fn from(e: core::array::TryFromSliceError) -> StunError { unimplemented!() }
 }
-//@item! stun_rs :: mod error > struct StunAttributeError
-//@item! stun_rs :: mod error > struct StunMessageError
-//@item! stun_rs :: mod error > enum StunErrorLevel
-//@item! stun_rs :: mod error > struct StunDecodeError
-//@item! stun_rs :: mod error > struct StunEncodeError
